@@ -31,11 +31,11 @@ type sink struct {
 	records     int64
 }
 
-func (s *sink) Init(logr.RuntimeInfo)            {}
-func (s *sink) Enabled(int) bool                 { return true }
-func (s *sink) Error(error, string, ...any)      {}
-func (s *sink) WithValues(...any) logr.LogSink   { return s }
-func (s *sink) WithName(string) logr.LogSink     { return s }
+func (s *sink) Init(logr.RuntimeInfo)          {}
+func (s *sink) Enabled(int) bool               { return true }
+func (s *sink) Error(error, string, ...any)    {}
+func (s *sink) WithValues(...any) logr.LogSink { return s }
+func (s *sink) WithName(string) logr.LogSink   { return s }
 func (s *sink) Info(_ int, msg string, kv ...any) {
 	if msg != "exporting spans" {
 		return
